@@ -263,6 +263,8 @@ def unwrap_key(
     Simple function to unwrap a key received.
     """
     validate_key(security_control.security_suite, wrapping_key)
-    validate_key(security_control.security_suite, wrapped_key)
     unwrapped_key = aes_key_unwrap(wrapping_key, wrapped_key)
+    # the wrapped key is 8 bytes longer than the key, it is the result that has to fit
+    # the security suite.
+    validate_key(security_control.security_suite, unwrapped_key)
     return unwrapped_key
